@@ -566,6 +566,10 @@ func (m *Machine) global(g *ssa.Global) *Value {
 			saved := m.depth
 			m.call(nil, 0, init, nil)
 			m.depth = saved
+			// after initialisation, package-level variables are state shared between calls
+			for _, cell := range m.globals {
+				m.MarkShared(cell)
+			}
 		}
 		if p, ok := m.globals[g]; ok {
 			return p
